@@ -16,6 +16,7 @@ CONSTANTS
   MAXRESTART = 1
   UPDENDS = {9}
   MAXUPD = 1
+  ADDS = {}
   SECONDBAD = FALSE
   FAILBUDGET = 99
 VIEW View
